@@ -11,7 +11,7 @@ MANIFEST = dict(
 )
 GEN = ["Errors", "Timing"]
 THEOREMS = [
-    "c07_aux_code_classes", "c07_aux_message_total", "c07_err_text_carries",
+    "c07_aux_code_classes", "c07_default_code_regenerated", "c07_aux_message_total", "c07_err_text_carries",
     "c07_translated",
     "c07_total_classification",
     "c07_permanent_set_as_documented",
